@@ -65,7 +65,6 @@ def random_solve_args(rng, n, cplx, sym):
         args['x0'] = np.array([rng.uniform(-1, 1) for _ in range(n)]).astype(b.dtype)
     if rng.random() < 0.3:
         args['accel'] = rng.choice(['cg', 'gmres'] if sym else ['gmres', 'bicgstab'])
-        args['cycle'] = 'V'
     if rng.random() < 0.5:
         args['residuals'] = []
     return b, args
@@ -89,6 +88,20 @@ def run(ctx):
     rng.shuffle(items)
     if not (ctx.thorough or ctx.search):
         items = items[:24]
+    # constructors with their own sources of randomness (C rand() in CLJP, NumPy RNG in Lloyd / adaptive SA) or with
+    # in-place operator filtering: always included
+    real = [m for m in mats if not m[0].startswith('complex')]
+    extra = [('rs-cljp', lambda A: pyamg.ruge_stuben_solver(sp.csr_array(A), CF='CLJP', max_coarse=3), 'sym'),
+             ('rs-cljpc', lambda A: pyamg.ruge_stuben_solver(sp.csr_array(A), CF='CLJPc', max_coarse=3), 'sym'),
+             ('rs-pmisc', lambda A: pyamg.ruge_stuben_solver(sp.csr_array(A), CF='PMISc', max_coarse=3), 'sym'),
+             ('sa-lloyd', lambda A: pyamg.smoothed_aggregation_solver(A, aggregate=('lloyd', {'ratio': 0.3}), max_coarse=3), 'sym'),
+             ('air-cljp', lambda A: pyamg.air_solver(sp.csr_array(A), CF='CLJP', max_coarse=4), 'nonsym'),
+             ('air-filter', lambda A: pyamg.air_solver(sp.csr_array(A), filter_operator=(True, 0.2), max_coarse=4), 'nonsym')]
+    for eb in extra:
+        if eb[2] == 'sym':
+            items += [(eb, m) for m in real[:2]]
+        else:
+            items.append((eb, ('upwind-6x6', hier.nonsym_matrix(6))))
     for (bname, f, kind), (mname, A) in items:
         base = dict(builder=bname, matrix=mname)
         ctx.mark(base)
@@ -121,12 +134,22 @@ def run(ctx):
             lv_before = snapshot_levels(used)
             at_before = attr_sets(used)
             hist = [random_solve_args(rng, n, cplx, sym) for _ in range(rng.randrange(1, 6))]
+            forced = None
+            if trial == 0:
+                # directed history: an accelerated solve with one cycle type, then the same call with another one
+                bb, aa = random_solve_args(rng, n, cplx, sym)
+                aa.update(accel='gmres', cycle='V', maxiter=2)
+                hist = [(bb, aa)]
+                forced = dict(aa, cycle='W')
+                forced.pop('x0', None)
             for b, args in hist:
                 try:
                     do_solve(used, b, args)
                 except Exception as e:   # noqa
                     ctx.fail('solve/raises', repr(e), dict(base, args={k: v for k, v in args.items() if k != 'x0'}))
             b, args = random_solve_args(rng, n, cplx, sym)
+            if forced is not None:
+                args = forced
             case = dict(base, history=[{k: (v if k not in ('x0', 'residuals') else 'given') for k, v in a.items()} for _, a in hist],
                         observed={k: (v if k not in ('x0', 'residuals') else 'given') for k, v in args.items()})
             ctx.mark(case)
